@@ -109,6 +109,7 @@ type layer struct {
 	snippet string
 	tmpls   map[string]string
 	l, r    string // rendered text = l + inner + r
+	discard bool   // … unless the inner text is discarded (rendered text = l + r)
 }
 
 type route struct {
@@ -117,6 +118,7 @@ type route struct {
 	needsTop   bool // its snippet has to stand at the top level of a template (it defines macros)
 	givesWhole bool // the payload becomes a whole template
 	givesTop   bool // the payload stands at the top level of a template
+	open       bool // whether the payload is evaluated at all is not fixed by the statement
 	apply      func(d string, payload string) layer
 }
 
@@ -147,6 +149,13 @@ var routes = []route{
 	}},
 	{name: "from-import", apply: func(d, p string) layer {
 		return layer{snippet: "{% from 'l" + d + "' import mg" + d + " %}{{ mg" + d + "() }}", tmpls: map[string]string{"l" + d: "{% macro mg" + d + "() %}" + p + "{% endmacro %}"}}
+	}},
+	{name: "import-toplevel", givesTop: true, open: true, apply: func(d, p string) layer {
+		// the body of an imported template outside its macros: the engine renders it (into nothing) to collect the macros
+		return layer{snippet: "{% import 'l" + d + "' as l" + d + " %}{{ l" + d + ".mg" + d + "() }}", tmpls: map[string]string{"l" + d: p + "{% macro mg" + d + "() %}x{% endmacro %}"}, l: "x", discard: true}
+	}},
+	{name: "from-import-toplevel", givesTop: true, open: true, apply: func(d, p string) layer {
+		return layer{snippet: "{% from 'l" + d + "' import mg" + d + " %}{{ mg" + d + "() }}", tmpls: map[string]string{"l" + d: p + "{% macro mg" + d + "() %}x{% endmacro %}"}, l: "x", discard: true}
 	}},
 	{name: "self-macro", needsTop: true, apply: func(d, p string) layer {
 		return layer{snippet: "{% macro mg" + d + "() %}" + p + "{% endmacro %}{{ _self.mg" + d + "() }}"}
@@ -182,6 +191,9 @@ func compose(path []int, pos position, snippet string) (sb string, tmpls map[str
 			tmpls[k] = v
 		}
 		payload, needsWhole, needsTop = ly.snippet, r.needsWhole, r.needsTop
+		if ly.discard {
+			out = ""
+		}
 		out = ly.l + out + ly.r
 	}
 	return payload, tmpls, out, true
@@ -360,8 +372,12 @@ func runCase(c cas) *vlib.Outcome {
 	}
 	o := &vlib.Outcome{Counters: map[string]int64{}}
 	routeNames := make([]string, len(c.path))
+	live := pos.live
 	for i, r := range c.path {
 		routeNames[i] = routes[r].name
+		if routes[r].open && live == "live" {
+			live = "open"
+		}
 	}
 	label := fmt.Sprintf("position %s (%s form, forbidden name %s), route [%s], policy %s", pos.name, map[bool]string{false: "filter", true: "function"}[c.fn], forbidden, strings.Join(routeNames, " > "), policyLabel[c.policy])
 
@@ -373,6 +389,7 @@ func runCase(c cas) *vlib.Outcome {
 		tmpls["sb"] = sb
 		tmpls["leaf"] = "L{{ x }}"
 		tmpls["main"] = "{{ 'o'|" + ffl + " }}{{ " + ffn + "('o') }}[" + boundaries[c.boundary] + "]{{ 'o'|" + ffl + " }}{{ " + ffn + "('o') }}"
+		tmpls["plain"] = strings.Replace(tmpls["main"], " sandboxed", "", 1) // the same program without the sandbox
 		return tmpls, "oo[" + out + "]oo"
 	}
 	fail := func(run string, tmpls map[string]string, format string, args ...interface{}) *vlib.Outcome {
@@ -380,10 +397,12 @@ func runCase(c cas) *vlib.Outcome {
 		o.Detail = map[string]interface{}{"templates": tmpls, "run": run}
 		return o
 	}
-	render := func(u *engineUnderTest) (string, error) {
+	renderT := func(u *engineUnderTest, name string) (string, error) {
 		o.Counters["renders"]++
-		return u.e.Render("main", map[string]interface{}{"w": 0})
+		u.fl, u.fn = counters{}, counters{}
+		return u.e.Render(name, map[string]interface{}{"w": 0})
 	}
+	render := func(u *engineUnderTest) (string, error) { return renderT(u, "main") }
 
 	// C. control: everything allowed — the position is reached and the program means what I think it means
 	tmplsF, want := build(forbidden)
@@ -396,10 +415,10 @@ func runCase(c cas) *vlib.Outcome {
 		return fail("control run (allow-all policy)", tmplsF, "got %q, %v; want %q", out, err, want)
 	}
 	reached := u.fl.inside+u.fn.inside > 0
-	if pos.live == "live" && !reached {
+	if live == "live" && !reached {
 		return fail("control run (allow-all policy)", tmplsF, "the forbidden callback was not invoked from inside, so the position is not reached (harness error)")
 	}
-	if pos.live == "dead" && reached {
+	if live == "dead" && reached {
 		return fail("control run (allow-all policy)", tmplsF, "the forbidden callback was invoked although the position is never evaluated")
 	}
 	o.Nontrivial = reached
@@ -410,10 +429,22 @@ func runCase(c cas) *vlib.Outcome {
 	if err != nil {
 		return fail("sandboxed run", tmplsF, "%v", err)
 	}
-	class, wantOutside := "", 0
+	class := ""
 	for pass := 1; pass <= 2; pass++ {
-		run := fmt.Sprintf("sandboxed run, render %d", pass)
-		out, err := render(u)
+		// first the same program without `sandboxed` on the same engine: it must run with full permissions
+		// (nothing of an earlier sandboxed render sticks), and the sandboxed render that follows must not
+		// inherit anything from it
+		run := fmt.Sprintf("unsandboxed render %d of the same program on the same engine", pass)
+		out, err := renderT(u, "plain")
+		if err != nil || out != want {
+			return fail(run, tmplsF, "got %q, %v; want %q", out, err, want)
+		}
+		if (u.fl.inside+u.fn.inside > 0) != reached || u.fl.outside != 2 || u.fn.outside != 2 {
+			return fail(run, tmplsF, "callback invocations: inside %d+%d (control run reached the position: %v), outside %d/%d, want 2/2", u.fl.inside, u.fn.inside, reached, u.fl.outside, u.fn.outside)
+		}
+
+		run = fmt.Sprintf("sandboxed run, render %d", pass)
+		out, err = render(u)
 		if u.fl.inside+u.fn.inside > 0 {
 			return fail(run, tmplsF, "the forbidden %s ran inside the sandbox (%d filter / %d function invocations); render returned %q, %v", forbidden, u.fl.inside, u.fn.inside, out, err)
 		}
@@ -421,17 +452,16 @@ func runCase(c cas) *vlib.Outcome {
 		switch {
 		case err != nil && !errors.As(err, &sv):
 			return fail(run, tmplsF, "the render failed with an error that is not a security violation: %v", err)
-		case err == nil && pos.live == "live":
+		case err == nil && live == "live":
 			return fail(run, tmplsF, "the render succeeded (%q) although the forbidden %s stands in an evaluated position", out, forbidden)
 		case err == nil && out != want:
 			return fail(run, tmplsF, "got %q, want %q", out, want)
 		}
 		// the includer's own calls ran (it keeps its permissions): the two before the sandboxed include,
 		// and the two after it when the include did not fail
+		wantOutside := 1
 		if err == nil {
-			wantOutside += 2
-		} else {
-			wantOutside++
+			wantOutside = 2
 		}
 		if u.fl.outside != wantOutside || u.fn.outside != wantOutside {
 			return fail(run, tmplsF, "the including template's own calls: filter ran %d times, function %d times, want %d each (render returned %q, %v)", u.fl.outside, u.fn.outside, wantOutside, out, err)
@@ -453,7 +483,7 @@ func runCase(c cas) *vlib.Outcome {
 			return fail("sandboxed run", tmplsF, "a security violation was reported but the policy object was never asked about %s (queries: %v)", forbidden, qp.queries)
 		}
 	}
-	o.Class = pos.live + "/" + policyLabel[c.policy] + "/" + class
+	o.Class = live + "/" + policyLabel[c.policy] + "/" + class
 
 	// B. the twin: an allowed name in the same position keeps working, and so does the includer afterwards
 	if c.policy != polDeny {
@@ -468,8 +498,8 @@ func runCase(c cas) *vlib.Outcome {
 			if err != nil || out != wantT {
 				return fail(run, tmplsT, "got %q, %v; want %q", out, err, wantT)
 			}
-			if u.fl.outside != 2*pass || u.fn.outside != 2*pass || u.fl.inside+u.fn.inside != 0 {
-				return fail(run, tmplsT, "the including template's own calls of %s/%s: %d/%d outside, %d inside; want %d/%d and 0", ffl, ffn, u.fl.outside, u.fn.outside, u.fl.inside+u.fn.inside, 2*pass, 2*pass)
+			if u.fl.outside != 2 || u.fn.outside != 2 || u.fl.inside+u.fn.inside != 0 {
+				return fail(run, tmplsT, "the including template's own calls of %s/%s: %d/%d outside, %d inside; want 2/2 and 0", ffl, ffn, u.fl.outside, u.fn.outside, u.fl.inside+u.fn.inside)
 			}
 		}
 	}
@@ -536,7 +566,7 @@ func main() {
 	vlib.Main(vlib.Spec{
 		ID:    "C06",
 		Level: "exploration",
-		Rule: "every program of the grid position-of-the-forbidden-name (39, filter and function form) x route below the sandbox boundary (all expressible compositions of 14 routes up to depth 2 quick / 3 thorough) " +
+		Rule: "every program of the grid position-of-the-forbidden-name (39, filter and function form) x route below the sandbox boundary (all expressible compositions of 16 routes up to depth 2 quick / 3 thorough) " +
 			"x policy (default+needed, hand-written counting allow-list, deny-all) x boundary tag form x forbidden name (custom, built-in) is rendered with instrumented callbacks; " +
 			"a case is non-trivial when the control run (same program, everything allowed) invokes the forbidden callback from inside the sandboxed include, i.e. the position is really reached",
 		Assumptions: []string{
